@@ -703,7 +703,7 @@ def _inline_new_helper_statements(tree: ast.Module, stem: str, ref: dict) -> int
                 out.add(m_.id)
         return out
 
-    def expand(call, caller, cls):
+    def expand(call, caller, cls, target_name=None):
         """-> (helper qn, binding statements, body copy) or None"""
         name, recv = None, None
         if isinstance(call.func, ast.Name) and call.func.id in helpers:
@@ -755,7 +755,18 @@ def _inline_new_helper_statements(tree: ast.Module, stem: str, ref: dict) -> int
             if id(call) in inside:
                 return False
             return all(id(m) in inside for m in ast.walk(caller) if isinstance(m, ast.Name) and m.id == nm)
+        # the name the helper returns becomes the caller's assignment target when nothing else stands in the way
+        returned = body[-1].value.id if body and isinstance(body[-1], ast.Return) and isinstance(body[-1].value, ast.Name) else None
+        forced = None
+        if target_name is not None and returned is not None and returned not in params \
+                and not any(isinstance(m, ast.Name) and m.id == target_name for a in binding.values() for m in ast.walk(a)) \
+                and target_name not in (helper_bound - {returned}):
+            forced = returned
+            if returned != target_name:
+                ren[returned] = target_name
         for nm in sorted(helper_bound):
+            if nm == forced:
+                continue
             same_arg = nm in binding and isinstance(binding[nm], ast.Name) and binding[nm].id == nm
             if nm in caller_names and not same_arg and not dead_at_call(nm):
                 counter[0] += 1
@@ -816,13 +827,14 @@ def _inline_new_helper_statements(tree: ast.Module, stem: str, ref: dict) -> int
                                     if not repl:
                                         repl = [ast.copy_location(ast.Pass(), st)]
                         elif isinstance(st, ast.Assign) and len(st.targets) == 1 and isinstance(st.value, ast.Call):
-                            got = expand(st.value, caller, cls)
+                            got = expand(st.value, caller, cls, st.targets[0].id if isinstance(st.targets[0], ast.Name) else None)
                             if got is not None:
                                 name, binds, body = got
                                 fn, _, rets = helpers[name]
                                 if len(rets) == 1 and body and isinstance(body[-1], ast.Return) and body[-1].value is not None:
                                     last = ast.copy_location(ast.Assign(targets=st.targets, value=body[-1].value), st)
-                                    repl = binds + body[:-1] + [last]
+                                    trivial = isinstance(st.targets[0], ast.Name) and isinstance(body[-1].value, ast.Name) and st.targets[0].id == body[-1].value.id
+                                    repl = binds + body[:-1] + ([] if trivial and (binds or body[:-1]) else [last])
                                 else:
                                     got = None
                         if got is not None:
@@ -1135,7 +1147,8 @@ def _pure(e) -> bool:
     if isinstance(e, ast.Tuple):
         return all(_pure(x) for x in e.elts)
     if isinstance(e, ast.Call):
-        return isinstance(e.func, ast.Name) and e.func.id in _PURE_BUILTINS and all(_pure(a) or (isinstance(a, ast.GeneratorExp) and _pure_comp(a)) for a in e.args) \
+        return isinstance(e.func, ast.Name) and e.func.id in _PURE_BUILTINS \
+            and all(_pure(a) or (isinstance(a, ast.GeneratorExp) and _pure_comp(a)) or _pure_chain(a) for a in e.args) \
             and all(k.arg is not None and _pure(k.value) for k in e.keywords)
     if isinstance(e, (ast.ListComp, ast.SetComp, ast.DictComp)):
         return _pure_comp(e)
@@ -1144,6 +1157,15 @@ def _pure(e) -> bool:
     if isinstance(e, ast.FormattedValue):
         return _pure(e.value) and (e.format_spec is None or _pure(e.format_spec))
     return False
+
+
+def _is_chain_from_iterable(e) -> bool:
+    return isinstance(e, ast.Call) and ast.unparse(e.func) in ("chain.from_iterable", "itertools.chain.from_iterable") and len(e.args) == 1 and not e.keywords
+
+
+def _pure_chain(e) -> bool:
+    """chain.from_iterable(<pure>) handed straight to a consuming builtin (a one-shot iterator, like a bare generator expression)"""
+    return _is_chain_from_iterable(e) and (_pure(e.args[0]) or (isinstance(e.args[0], ast.GeneratorExp) and _pure_comp(e.args[0])))
 
 
 def _pure_comp(e) -> bool:
@@ -1630,6 +1652,62 @@ def _restyle_candidates(fn):
                         g_ = ast.copy_location(ast.If(test=x.test, body=[ast.copy_location(ast.Return(value=x.body), st)], orelse=[]), st)
                         blk[i:i + 1] = [g_, ast.copy_location(ast.Return(value=x.orelse), st)]
                     out.append(d)
+                # L: `xs.extend([E for v in S if c])` (list or generator) -> `for v in S: if c: xs.append(E)`
+                if isinstance(st, ast.Expr) and isinstance(st.value, ast.Call) and isinstance(st.value.func, ast.Attribute) and st.value.func.attr == "extend" \
+                        and isinstance(st.value.func.value, ast.Name) and len(st.value.args) == 1 and not st.value.keywords \
+                        and isinstance(st.value.args[0], (ast.ListComp, ast.GeneratorExp)):
+                    comp_ = st.value.args[0]
+                    xs_ = st.value.func.value.id
+                    if not any(isinstance(m_, ast.Name) and m_.id == xs_ for m_ in ast.walk(comp_)) and not any(g_.is_async for g_ in comp_.generators):
+                        def l_(blk=blk, i=i, st=st, comp_=comp_, xs_=xs_):
+                            body_ = [ast.copy_location(ast.Expr(value=ast.Call(func=ast.Attribute(value=ast.Name(id=xs_, ctx=ast.Load()), attr="append", ctx=ast.Load()),
+                                                                               args=[comp_.elt], keywords=[])), st)]
+                            for gq in reversed(comp_.generators):
+                                for cnd in reversed(gq.ifs):
+                                    body_ = [ast.copy_location(ast.If(test=cnd, body=body_, orelse=[]), st)]
+                                body_ = [ast.copy_location(ast.For(target=gq.target, iter=gq.iter, body=body_, orelse=[]), st)]
+                            blk[i] = body_[0]
+                        out.append(l_)
+                # K1: `for i, x in enumerate(S, start=K)` -> `i = K` / `for x in S: ...; i += 1`
+                if isinstance(st, ast.For) and not st.orelse and isinstance(st.iter, ast.Call) and isinstance(st.iter.func, ast.Name) and st.iter.func.id == "enumerate" \
+                        and isinstance(st.target, ast.Tuple) and len(st.target.elts) == 2 and isinstance(st.target.elts[0], ast.Name) and 1 <= len(st.iter.args) <= 2 \
+                        and all(k_.arg == "start" for k_ in st.iter.keywords) and len(st.iter.args) + len(st.iter.keywords) <= 2:
+                    iname = st.target.elts[0].id
+                    own = []
+                    todo_ = list(st.body)
+                    while todo_:
+                        y_ = todo_.pop()
+                        own.append(y_)
+                        if isinstance(y_, (ast.For, ast.While) + _FUNC + (ast.Lambda, ast.ClassDef)):
+                            continue  # a continue in an inner loop belongs to that loop
+                        todo_.extend(ast.iter_child_nodes(y_))
+                    has_continue = any(isinstance(y_, ast.Continue) for y_ in own)
+                    rebinds = any(isinstance(y_, ast.Name) and y_.id == iname and not isinstance(y_.ctx, ast.Load) for b_ in st.body for y_ in ast.walk(b_))
+                    if not has_continue and not rebinds:
+                        def k1(blk=blk, i=i, st=st, iname=iname):
+                            start = st.iter.args[1] if len(st.iter.args) == 2 else (st.iter.keywords[0].value if st.iter.keywords else ast.Constant(value=0))
+                            init = ast.copy_location(ast.Assign(targets=[ast.Name(id=iname, ctx=ast.Store())], value=start), st)
+                            inc = ast.copy_location(ast.AugAssign(target=ast.Name(id=iname, ctx=ast.Store()), op=ast.Add(), value=ast.Constant(value=1)), st)
+                            loop = ast.copy_location(ast.For(target=st.target.elts[1], iter=st.iter.args[0], body=st.body + [inc], orelse=[]), st)
+                            blk[i:i + 1] = [init, loop]
+                        out.append(k1)
+                # K2: `for x in chain.from_iterable(G)` (possibly materialised by tuple()/list()) -> `for g in G: for x in g:`
+                if isinstance(st, ast.For) and not st.orelse and not has_break(st.body):
+                    src_ = st.iter
+                    if isinstance(src_, ast.Call) and isinstance(src_.func, ast.Name) and src_.func.id in ("tuple", "list") and len(src_.args) == 1 and not src_.keywords:
+                        src_ = src_.args[0]
+                    if _is_chain_from_iterable(src_) and _pure(src_.args[0]):
+                        gnames_ = {m_.id for m_ in ast.walk(src_.args[0]) if isinstance(m_, ast.Name)}
+                        mutates = any(isinstance(m_, ast.Name) and m_.id in gnames_ and not isinstance(m_.ctx, ast.Load) for b_ in st.body for m_ in ast.walk(b_)) or \
+                            any(isinstance(m_, ast.Call) and isinstance(m_.func, ast.Attribute) and m_.func.attr in _MUTATORS and isinstance(m_.func.value, ast.Name)
+                                and m_.func.value.id in gnames_ for b_ in st.body for m_ in ast.walk(b_))
+                        if not mutates:
+                            def k2(blk=blk, i=i, st=st, src_=src_):
+                                used = {m_.id for m_ in ast.walk(fn) if isinstance(m_, ast.Name)}
+                                gname = next(c_ for c_ in ("group", "group_", "group__") if c_ not in used)
+                                inner_ = ast.copy_location(ast.For(target=st.target, iter=ast.Name(id=gname, ctx=ast.Load()), body=st.body, orelse=[]), st)
+                                blk[i] = ast.copy_location(ast.For(target=ast.Name(id=gname, ctx=ast.Store()), iter=src_.args[0], body=[inner_], orelse=[]), st)
+                            out.append(k2)
                 # E: loop over a generator expression that yields its own innermost variable -> nested loops
                 if isinstance(st, ast.For) and not st.orelse and isinstance(st.iter, ast.GeneratorExp) and isinstance(st.target, ast.Name) \
                         and isinstance(st.iter.elt, ast.Name) and st.iter.elt.id == st.target.id and not has_break(st.body) \
